@@ -34,7 +34,7 @@ AUDITED_UNSAFE = {
     ('<[T; N] as Decode>::decode_into', 'from_raw_parts_mut'): 'zero-initialised just before',
     ('<[T; N] as Decode>::decode_into', 'assert_decoding_finished'): 'whole array initialised (bulk read or completed loop)',
     ('<[T; N] as Decode>::decode_into', 'deref-raw'): 'MaybeUninit<[T;N]> viewed as [MaybeUninit<T>;N]',
-    ("<<[T; N] as codec::Decode>::decode_into::State<'_, T, N> as Drop>::drop", 'assume_init_drop'): 'only the first count elements, which are initialised',
+    ('array-guard::drop', 'assume_init_drop'): 'only the first count elements, which are initialised',
     ('helper:bulk::{closure#0}', 'set_len'): 'within the capacity reserved by decode_vec_chunked; element type is plain data',
     ('helper:with_len', 'transmute'): 'Vec<P> -> Vec<T> with T == P by TYPE_INFO',
     ('<compact::ArrayVecWrapper<N> as Output>::write', 'set_len'): 'guarded by the capacity assert',
@@ -52,10 +52,13 @@ def census(out, facts):
     seen = set()
     leaks = set()
     n_ops = 0
+    G = array_guard(facts)
     for f in facts.fns:
         if not f.get('thir'):
             continue
         key = stable_fkey(facts, f)
+        if G and G.get('drop') is f:
+            key = 'array-guard::drop'        # the guard is identified by structure, not by its name
         for node, parents in _walk_thir(f['thir'], [], f):
             k = node.get('k')
             if k == 'call':
@@ -97,6 +100,9 @@ def check_array(out, facts):
     t, v, ev = wire.infer_decoder_fn(facts, f)
     its = items(t)
     why = []
+    G = array_guard(facts)
+    if not G:
+        why.append('no drop guard struct (usize counter + &mut [MaybeUninit<T>; N]) is defined in decode_into')
     kinds = [e[0] for e in its]
     stars = [i for i, e in enumerate(its) if e[0] == 'star']
     forgets_top = [i for i, e in enumerate(its) if e[0] == 'OWN' and e[1] == 'forget']
@@ -113,10 +119,13 @@ def check_array(out, facts):
             why.append('something happens between the loop and mem::forget(state)')
         fa = forgets_all[0]
         st = strip(fa[3][0])
-        if not (isinstance(st, tuple) and st[0] == 'mutvar' and st[2] == 'state'):
+        init_v = strip(st[3]) if isinstance(st, tuple) and st[0] == 'mutvar' else None
+        if not (init_v is not None and isinstance(init_v, tuple) and init_v[0] == 'adt' and G and init_v[1] == G['path']):
             why.append('mem::forget is not applied to the guard')
         else:
-            init = sym.vstr(st[3])
+            init = guard_canon(sym.vstr(st[3]), G)
+            if G['count_idx'] == 1:
+                init = 'State::State{0: 0:usize, 1: ' if sym.vstr(dict(init_v[3]).get(1)) == '0:usize' else init
             if not init.startswith('State::State{0: 0:usize, 1: '):
                 why.append('guard does not start with count = 0: ' + init[:80])
         after = its[forgets_top[0] + 1:]
@@ -129,9 +138,10 @@ def check_array(out, facts):
             why.append('loop body is not decode_into(..)?; count += 1 (the counter must be advanced only after the element is initialised): %s' % [e[0] for e in seq])
         else:
             d = seq[0]
-            if d[3] != 'decode_into' or 'state.slice' not in sym.vstr(d[4]) or 'state.count' not in sym.vstr(d[4]):
+            dst = guard_canon(sym.vstr(d[4]), G)
+            if d[3] != 'decode_into' or 'state.slice' not in dst or 'state.count' not in dst:
                 why.append('element destination is not state.slice[state.count]: ' + sym.vstr(d[4])[:80])
-            if not (sym.vstr(seq[2][1]) == 'mut state.count' and seq[2][3] == 'AddAssign' and sym.vstr(seq[2][2]) == '1:usize'):
+            if not (guard_canon(sym.vstr(seq[2][1]), G) == 'mut state.count' and seq[2][3] == 'AddAssign' and sym.vstr(seq[2][2]) == '1:usize'):
                 why.append('counter update is not count += 1')
     from .c02 import shortcut_success_exit
     w = shortcut_success_exit(t)
@@ -161,7 +171,7 @@ def check_array(out, facts):
                 why.append('bulk read does not fill the zero-initialised view')
     out.ob('R10.2', key, not why, '; '.join(why), f['loc'], sample={'term': sym.tstr(t)[:500]})
     # the guard's Drop
-    drops = [g for g in facts.fns if g['method'] == 'drop' and 'decode_into::State' in (g.get('self') or '') and g['kind'] == 'AssocFn']
+    drops = [G['drop']] if G and G.get('drop') else []
     if len(drops) != 1:
         out.fail('R10.2', 'State::drop [%s]' % cfg, 'drop guard impl not found (without it partially decoded elements leak on error)', '-')
     else:
@@ -172,17 +182,32 @@ def check_array(out, facts):
         v2, t2 = evl.ev(g['thir'], ctx)
         why = []
         st2 = [x for x in sym.walk(t2) if x[0] == 'star']
-        if len(st2) != 1 or sym.vstr(st2[0][1]) != 'index_mut(self.slice, RangeTo::RangeTo{0: self.count})':
+        if len(st2) != 1 or guard_canon(sym.vstr(st2[0][1]), G) != 'index_mut(self.slice, RangeTo::RangeTo{0: self.count})':
             why.append('guard does not iterate exactly slice[..count]')
         else:
             b = [e for e in events(st2[0][2]) if e[0] in ('MUTCALL', 'OWN')]
             if len(b) != 1 or b[0][1] != 'assume_init_drop' or not sym.vstr(b[0][3][0]).startswith('elem('):
                 why.append('guard does not drop each initialised element exactly once')
-        early = [x for x in items(t2) if x[0] == 'alt']
-        for a in early:
-            c = sym.vstr(a[1][1]) if isinstance(a[1], tuple) and a[1][0] == 'if' else ''
-            if c != 'Not(needs_drop())':
-                why.append('early return of the guard under a condition other than !needs_drop::<T>(): ' + c)
+        # the loop is skipped only when T does not need dropping (however that is spelled: early return or if-block)
+        for pth in paths(t2):
+            skip_ok = False
+            other = []
+            for e in pth:
+                if e[0] == 'ARM' and isinstance(e[1], tuple) and e[1] and e[1][0] == 'if':
+                    c = strip(e[1][1])
+                    neg = False
+                    while isinstance(c, tuple) and c and c[0] == 'un' and c[1] == 'Not':
+                        c = strip(c[2])
+                        neg = not neg
+                    if isinstance(c, tuple) and c and c[0] == 'call' and c[1] == 'needs_drop':
+                        needs = (e[2] == 'true') != neg
+                        if not needs:
+                            skip_ok = True
+                    else:
+                        other.append(sym.vstr(e[1][1])[:60])
+            looped = any(e[0] in ('LOOP0', 'LOOP1') for e in pth)
+            if not looped and not skip_ok:
+                why.append('the guard skips dropping under a condition other than !needs_drop::<T>(): %s' % (other or 'unconditionally'))
         out.ob('R10.2', 'State::drop [%s]' % cfg, not why, '; '.join(why), g['loc'], sample={'term': sym.tstr(t2)})
     f2 = facts.impl_method('Decode', '[T; N]', 'decode')
     if f2:
@@ -240,11 +265,14 @@ def check_box(out, facts):
     # null check before use
     from .c08 import _walk_thir
     has_null = False
-    for node, parents in _walk_thir(f['thir'], [], f):
-        if node.get('k') == 'call' and node.get('name') == 'handle_alloc_error':
-            conds = [p_ for p_ in parents if p_.get('k') == 'if']
-            if conds and 'is_null' in str(conds[-1].get('cond')):
-                has_null = True
+    # the function itself and the private helpers factored out of it
+    bodies = [f] + [g for g in facts.fns if g is not f and g.get('thir') and g['kind'] == 'Fn' and stable_fkey(facts, g) == stable_fkey(facts, f)]
+    for fb in bodies:
+        for node, parents in _walk_thir(fb['thir'], [], fb):
+            if node.get('k') == 'call' and node.get('name') == 'handle_alloc_error':
+                conds = [p_ for p_ in parents if p_.get('k') == 'if']
+                if conds and 'is_null' in str(conds[-1].get('cond')):
+                    has_null = True
     if not has_null:
         why.append('allocation result is not null-checked (handle_alloc_error under is_null)')
     out.ob('R10.3', key, not why, '; '.join(sorted(set(why))), f['loc'], sample={'term': sym.tstr(t)[:400]})
@@ -272,14 +300,16 @@ def check_default_decode_into(out, facts):
     out.ob('R10.4', 'Decode::decode_into default [%s]' % cfg, ok, 'DecodeFinished is not dominated by dst.write(decoded value): ' + sym.tstr(t), d['loc'])
     # every assert_decoding_finished / assume_init* in the crate is in one of the audited functions
     allowed = {'Decode::decode_into (default)', '<[T; N] as Decode>::decode_into', '<[T; N] as Decode>::decode',
-               "<<[T; N] as codec::Decode>::decode_into::State<'_, T, N> as Drop>::drop"}
+               'array-guard::drop'}
     from .c08 import _walk_thir
+    G4 = array_guard(facts)
     for f in facts.fns:
         if not f.get('thir'):
             continue
         for node, _p in _walk_thir(f['thir'], [], f):
             if node.get('k') == 'call' and node.get('name') in ('assert_decoding_finished', 'assume_init', 'assume_init_drop', 'assume_init_mut', 'assume_init_ref', 'assume_init_read'):
-                out.ob('R10.4', '%s in %s [%s]' % (node['name'], fkey(f), cfg), fkey(f) in allowed,
+                fk = 'array-guard::drop' if (G4 and G4.get('drop') is f) else fkey(f)
+                out.ob('R10.4', '%s in %s [%s]' % (node['name'], fk, cfg), fk in allowed,
                        'initialisation is asserted in a function whose typestate is not audited', node.get('loc', f['loc']))
 
 
